@@ -111,18 +111,82 @@ def disagree(key, detail):
 
 # --------------------------------------------------------------------------- negotiation
 
+TIE_QS = [None, '0', '0.2', '0.5', '0.9', '1', '0.20']
+
+
+def with_q(member, q):
+    return member if q is None else member + ';q=' + q
+
+
+def levels_for(cand_main, cand_sub, cand_params):
+    """Members that match the candidate, by specificity level (most specific first); several
+    spellings per level so that duplicates need not be textually equal."""
+    base = cand_main + '/' + cand_sub
+    lv = []
+    if cand_params:
+        lv.append([base + ';' + cand_params, base + '; ' + cand_params, base + ' ;' + cand_params])
+    lv.append([base, ' ' + base, base + ' '] if not cand_params else [base])
+    lv.append([cand_main + '/*'])
+    lv.append(['*/*', '*'])
+    return lv
+
+
+def tie_cases(rng, n_random):
+    """Headers in which 2-3 members are EQUALLY specific for the candidate (at every specificity level:
+    exact with parameters, exact bare, type/*, */*) with distinct q values in every order, q=0 first and
+    last included; with and without less specific members around them and a competing candidate."""
+    out = []
+    cands_pool = [('text', 'html', ''), ('text', 'html', 'level=1'), ('application', 'json', 'charset=utf-8'),
+                  ('image', 'png', '')]
+    # exhaustive block: every level x every ordered pair of distinct q values
+    for (m, sub, prm) in cands_pool:
+        cand = m + '/' + sub + (';' + prm if prm else '')
+        for lv in levels_for(m, sub, prm):
+            for qa in TIE_QS:
+                for qb in TIE_QS:
+                    if qa == qb:
+                        continue
+                    a = with_q(lv[0], qa)
+                    b = with_q(lv[-1] if len(lv) > 1 else lv[0], qb)
+                    out.append((a + ', ' + b, [cand]))
+                    out.append((a + ', text/plain;q=0.3, ' + b, ['text/plain', cand]))
+    # random block: 2-3 tied members at one level, distractors at the other levels, competing candidates
+    for _ in range(n_random):
+        m, sub, prm = rng.choice(cands_pool)
+        cand = m + '/' + sub + (';' + prm if prm else '')
+        lvls = levels_for(m, sub, prm)
+        li = rng.randrange(len(lvls))
+        qs = rng.sample(TIE_QS, rng.choice([2, 3]))
+        members = [with_q(rng.choice(lvls[li]), q) for q in qs]
+        for lj, lv in enumerate(lvls):
+            if lj != li and rng.random() < 0.5:
+                members.insert(rng.randint(0, len(members)), with_q(rng.choice(lv), rng.choice(TIE_QS)))
+        other = rng.choice(['text/plain', 'application/xml', 'text/html', 'image/*'])
+        if rng.random() < 0.6:
+            members.insert(rng.randint(0, len(members)), with_q(other, rng.choice(TIE_QS)))
+        cands = [cand, other] if rng.random() < 0.5 else [other, cand]
+        if rng.random() < 0.3:
+            cands.append(m + '/' + sub)
+        out.append((rng.choice([', ', ',', ' , ']).join(members), cands))
+    return out
+
+
 def check_negotiation(ctx, model, falcon, n):
     from falcon import mediatypes
     from falcon import testing
     rng = ctx.rng
     cases = []
     meta = []
+    inputs = []
     for i in range(n):
         header = gen_header(rng)
         cands = [gen_media_type(rng) for _ in range(rng.choice([0, 1, 2, 3, 3, 4]))]
         if rng.random() < 0.3:
             cands = [c for c in ['application/json', 'text/html', 'text/plain; charset=utf-8', 'application/xml']
                      if rng.random() < 0.7]
+        inputs.append((header, cands))
+    inputs += tie_cases(rng, n // 2)
+    for header, cands in inputs:
         table = oracle_table(mediatypes, [header])
         quals = []
         for c in cands:
@@ -234,6 +298,34 @@ def check_negotiation(ctx, model, falcon, n):
                 ctx.violation('best-match-not-first-maximal',
                               dict(base, what='best_match is not the first candidate of maximal positive quality',
                                    qualities=[qv[1] for qv in quals], impl=best[1]), key='best-spec')
+    # second pass: judge best_match / client_prefers / client_accepts against the qualities the RULE
+    # gives (the model's, proved by quality_spec), not against the implementation's own qualities
+    cases2, meta2 = [], []
+    for (idx0, header, cands, quals, best, prefers, accepts, hdr_present) in meta:
+        mq = [m_res(outs[idx0 + 2 * j]) for j in range(len(cands))]
+        if not cands or any(q[0] != 'ok' for q in mq):
+            continue
+        pairs = [[c, list(q[1])] for c, q in zip(cands, mq)]
+        if best[0] == 'ok':
+            cases2.append([8, pairs, [] if best[1] is None else [best[1]]])
+            meta2.append(('best_match', header, cands, best[1], None))
+        if prefers[0] == 'ok' and hdr_present and header.strip() not in ('', '*/*'):
+            cases2.append([8, pairs, [] if prefers[1] is None else [prefers[1]]])
+            meta2.append(('client_prefers', header, cands, prefers[1], None))
+        if hdr_present and header.strip() not in ('', '*/*'):
+            for c, q, a in zip(cands, mq, accepts):
+                if a[0] == 'ok' and header.strip() != c:
+                    want = q[1][0] != 0
+                    if a[1] != want:
+                        ctx.violation('client-accepts-differs-from-rule',
+                                      {'what': 'req.client_accepts(%r) is %r but the quality the matching rule gives is '
+                                               '%s/%s' % (c, a[1], q[1][0], q[1][1]), 'header': header,
+                                       'candidates': cands}, key='accepts-rule')
+    for (what, header, cands, got, _), ok in zip(meta2, model.run_many(cases2)):
+        if not ok:
+            ctx.violation('best-match-not-first-maximal',
+                          {'what': '%s is not the first candidate of maximal positive quality under the matching rule'
+                                   % what, 'header': header, 'candidates': cands, 'impl': got}, key='rule-' + what)
     ctx.sample({'header': meta[0][1], 'candidates': meta[0][2], 'best_match': repr(meta[0][4])})
 
 
